@@ -251,6 +251,9 @@ def c16(tier):
     C.extra["units"] = sorted(P.units.keys())
     # accepted entries survive serialisation: the writer appends them, it never searches-and-replaces by their names
     fs.fs9(P, C)
+    # a typed read denotes the stored string: nothing of an earlier read (stream state, scratch) is kept between calls
+    selftest.run(P, C, ('re1',))
+    dp.re1(P, C)
     return C.finish()
 
 
@@ -277,6 +280,8 @@ def c05(tier):
     # which core reads centers[D]/order[D]/strides[D] is decided by the dispatch table
     dp.dp(P, C)
     dp.dp(P, C, variant="driver-noevaltmpl")
+    # ... and how far a known-order core walks is decided by its compile-time chunk count
+    dp.dp7(P, C)
     kb.sc123(P, C)      # the centre range (clamps, adjustment, search interval) is what keeps the coefficient walk in bounds
     C.extra["vla_declarators"] = n
     C.extra["units"] = sorted(P.units.keys())
@@ -295,6 +300,8 @@ def c04(tier):
     # comparisons mean what they say only while nobody switches the FPU to flush-to-zero / another rounding mode
     ed.env1(P, C)
     kb.sc123(P, C)
+    # lookup touches the coordinates through comparisons only: no arithmetic on them can produce an index (inf - inf, NaN -> int)
+    kb.sc4(P, C)
     # the call operator looks the centres up into a scratch array of its own: it must hold one centre per dimension
     kb.kb8(P, C)
     # lookup takes its acceptance limit and bisection bound from nknots[i] and knots[i]: the one operation of the library that moves these
@@ -323,6 +330,8 @@ def c03(tier):
     n = dp.cl1(P, C)
     dp.cl2(P, C)
     cw.cw5(P, C)
+    # the C interface asks the table on every path: it does not decide by itself which tables to evaluate
+    cw.cw9(P, C)
     # the value path (bsplvb_simple), the derivative path and the gradient path (bspline_nonzero) must treat the margins alike
     kb.kb2(P, C)
     kb.kb2b(P, C)
@@ -385,6 +394,10 @@ def c10(tier):
     C.extra["units"] = sorted(P.units.keys())
     sp.sp3(P, C)
     sp.sp5(P, C)
+    # the row that leaves / enters the factor is the coefficient that changes sets; a sub-factor copied by position is analysed with the
+    # permutation that was handed in
+    sp.sp6(P, C)
+    sp.sp7(P, C)
     # clause 2 (inactive constraint returns the unconstrained fit) needs the solver to run to its optimum
     sg.sg7(P, C)
     sp.mm1(P, C)
@@ -422,6 +435,8 @@ def c11(tier):
     sp.sp3(P, C)
     sp.sp4(P, C)
     sp.sp5(P, C)
+    sp.sp6(P, C)
+    sp.sp7(P, C)
     return C.finish()
 
 
@@ -512,6 +527,8 @@ def c06(tier):
     ax.fs4(P, C)
     C.extra["units"] = sorted(P.units.keys())
     fs.fs9(P, C)
+    # what the pixel reads stored is what the table holds
+    fs.fs13(P, C)
     return C.finish()
 
 
@@ -536,6 +553,9 @@ def c17(tier):
     ge.ge5(P, C)
     ge.ge6(P, C)
     ge.ge7(P, C)
+    ge.ge8(P, C)
+    # the C wrapper defines *result on every exit (a caller re-using its variable must not see a stale grid)
+    cw.cw8(P, C)
     return C.finish()
 
 
